@@ -464,4 +464,40 @@ theorem surnameList_total' (doc : Doc) : Total (surnameList doc) := by
   | nil => exact absurd rfl this
   | cons a l => simp
 
+theorem eventDate_total' {α} (dates : List α) : Total (eventDate dates) := by
+  unfold eventDate
+  cases dates with
+  | nil => simp
+  | cons a l => simp [first]
+
+theorem pickEvent_total' {α} (p f : List α) : Total (pickEvent p f) := by
+  unfold pickEvent
+  cases p with
+  | cons a l => simp [first]
+  | nil =>
+    cases f with
+    | nil => simp
+    | cons a l => simp [first]
+
+theorem eventDates_total' {α} (b bp d bu : List α) : Total (eventDates b bp d bu) := by
+  unfold eventDates
+  apply total_bind (pickEvent_total' b bp)
+  intro _
+  apply total_bind (pickEvent_total' d bu)
+  intro _
+  simp
+
+theorem lookupPlace_member {α} (m : List (Str × α)) (k : Str) (h : k ∈ m.map (·.1)) : Total (lookupPlace m k) := by
+  unfold lookupPlace
+  obtain ⟨e, he, rfl⟩ := List.mem_map.mp h
+  cases hf : m.find? (fun x => x.1 == e.1) with
+  | some x => simp
+  | none =>
+    have := List.find?_eq_none.mp hf e he
+    simp at this
+
+theorem placePages_total' {α} (m : List (Str × α)) : Total (placePages m) := by
+  unfold placePages
+  exact mapRes_total _ _ (fun k hk => lookupPlace_member m k hk)
+
 end Gedcom.Resolve
